@@ -313,6 +313,8 @@ func c03Run(r *core.Run) {
 		s.NeighbourNoise(enc)
 	case 2:
 		s.WarmUpThenReconfigure(enc)
+	case 4:
+		OtherAPICalls(r, s.Node.SP, 7)
 	case 3:
 		// an earlier delivery that was complete where this one is not, and that the SP had to turn down
 		// half-way through decoding (AuthnInstant of the assertion at the same position is not a dateTime):
